@@ -785,5 +785,74 @@ theorem runRe_nil_not_re {re : Phase → Bool} {S : Stacking} {L : Limits} (n : 
     (hd : c.deadline = some d) (h : re c.phase = false) : runRe re n S L c [] = .closed d c.phase c.anchor := by
   simp [runRe, lapseEnd_not_re n h, hd]
 
+/-! ## §9 what connections share: handshake admission -/
+
+theorem runningMax_length (free : Nat) (as : List Nat) : (runningMax free as).length = as.length := by
+  induction as generalizing free with
+  | nil => rfl
+  | cons a as ih => simp [runningMax, ih]
+
+theorem hsBegins_none (L : Limits) (now : Nat) (held : List (Option Nat)) (rs : List HsReq) :
+    hsBegins none L now held rs = rs.map fun r => some r.reach := by
+  induction rs generalizing now held with
+  | nil => rfl
+  | cons r rs ih => simp only [hsBegins, hsBegin, List.map_cons, ih]
+
+theorem hsEnd_stalled (L : Limits) (b : Nat) (script : List (Nat × Ev)) (h : ∀ x ∈ script, x.2 = .data) :
+    hsEnd L b script = dl L.tls b := by
+  induction script with
+  | nil => rfl
+  | cons x rest ih =>
+    obtain ⟨t, e⟩ := x
+    have he : e = .data := h (t, e) (by simp)
+    have ih' := ih (fun x hx => h x (by simp [hx]))
+    subst he
+    cases hd : dl L.tls b with
+    | none =>
+      simp only [hsEnd, hd]
+      simp [ih', hd]
+    | some d =>
+      simp only [hsEnd, hd]
+      split
+      · rfl
+      · simp [ih', hd]
+
+theorem heldAt_replicate (j a T : Nat) (h : a < T) :
+    heldAt (List.replicate j (some T)) a = List.replicate j (some T) := by
+  unfold heldAt
+  rw [List.filter_eq_self]
+  intro x hx
+  rw [List.eq_of_mem_replicate hx]
+  simp [stillHeld, h]
+
+theorem firstFree_replicate (j T : Nat) : firstFree (List.replicate (j + 1) (some T)) = some T := by
+  induction j with
+  | zero => simp [firstFree]
+  | succ j ih =>
+    rw [List.replicate_succ]
+    simp only [firstFree, ih, Nat.min_self]
+
+/-- `m` connections that reach their handshake at 0 and send nothing fill `m` of the `n` slots (the other `j`
+    are held until `T` as well); a connection that reaches its handshake at `a < T` when all are taken waits
+    for the first cut-off -/
+theorem hsBegins_pool_fill (n : Nat) (L : Limits) (h0 : 0 < L.tls) (a : Nat) (ha : a < L.tls)
+    (s : List (Nat × Ev)) (m j : Nat) (hj : j + m = n) (hn : 0 < n) :
+    hsBegins (some n) L 0 (List.replicate j (some L.tls)) (List.replicate m ⟨0, []⟩ ++ [⟨a, s⟩]) =
+      List.replicate m (some 0) ++ [some L.tls] := by
+  induction m generalizing j with
+  | zero =>
+    obtain ⟨i, rfl⟩ : ∃ i, n = i + 1 := ⟨n - 1, by omega⟩
+    have hji : j = i + 1 := by omega
+    subst hji
+    simp only [List.replicate_zero, List.nil_append, hsBegins, hsBegin, Nat.zero_max,
+      heldAt_replicate _ _ _ ha, List.length_replicate, Nat.lt_irrefl, if_false, firstFree_replicate]
+  | succ m ih =>
+    have hlt : j < n := by omega
+    simp only [List.replicate_succ, List.cons_append, hsBegins, hsBegin, Nat.max_self,
+      heldAt_replicate _ _ _ h0, List.length_replicate, hlt, if_true, hsEnd, dl, h0, Nat.zero_add]
+    have := ih (j + 1) (by omega)
+    rw [List.replicate_succ] at this
+    rw [this]
+
 end C15
 end FwdVerif
